@@ -5,8 +5,9 @@
 (* never by the code under test) and what was observed: status class, the    *)
 (* bucket listing before and after as object keys, the keys whose object     *)
 (* was created or changed, the keys whose object decodes to the report that  *)
-(* was sent, whether anything outside the bucket changed.  TLC carries the   *)
-(* bucket of Server.tla along and decides every record with Decision.        *)
+(* was sent, the directories below the bucket directory, whether anything    *)
+(* (file or directory) outside the bucket changed.  TLC carries the bucket   *)
+(* of Server.tla along and decides every record with Decision.               *)
 EXTENDS ServerMC
 Trace == ndJsonDeserialize("c12obs.ndjson")
 VARIABLES l,     \* next record
@@ -30,6 +31,8 @@ ExplainedRec(r) ==
        /\ ~r.outside                                        \* nothing outside the bucket
        /\ ~r.badnames                                       \* every object is named <date>/<number>.json
        /\ Keys(r.before) = DOMAIN bucket
+       /\ {[y |-> r.dirs[i].y, m |-> r.dirs[i].m, d |-> r.dirs[i].d] : i \in DOMAIN r.dirs}
+             = Dirs([k \in Keys(r.after) |-> "object"])            \* directories: those of the stored weeks, no other
        /\ IF Stores(r)
           THEN /\ r.status = "2xx"
                /\ InsideBucket(ObjectPath(q))
